@@ -14,11 +14,20 @@ def imin(a, b):
     return z3.If(a <= b, a, b)
 
 
-def lev_theory(src='source', tgt='target', free_start=False):
-    """returns theory(ex, st) declaring LEV over the elements of params src / tgt and the cost params"""
+def lev_theory(src='source', tgt='target', free_start=False, longer_first=False):
+    """returns theory(ex, st) declaring LEV over the elements of params src / tgt and the cost params.
+    longer_first: the function swaps its arguments so that the first is the longer one; the theory is then
+    stated over (longer, shorter)."""
     def theory(ex, st):
         S = st.env[src]
         T = st.env[tgt]
+        if longer_first:
+            swap = to_int(T.shape[0]) > to_int(S.shape[0])
+            S0, T0 = S, T
+            S = ArrayVal((z3.If(swap, to_int(T0.shape[0]), to_int(S0.shape[0])),),
+                         lambda i: z3.If(swap, T0.get(i), S0.get(i)), 'sym')
+            T = ArrayVal((z3.If(swap, to_int(S0.shape[0]), to_int(T0.shape[0])),),
+                         lambda i: z3.If(swap, S0.get(i), T0.get(i)), 'sym')
         sub, ins, dele = [to_int(st.env[c]) for c in ('sub_cost', 'ins_cost', 'del_cost')]
         LEV = z3.Function('LEV', z3.IntSort(), z3.IntSort(), z3.IntSort())
         a, b = z3.Ints('a b')
@@ -30,10 +39,29 @@ def lev_theory(src='source', tgt='target', free_start=False):
                                                 LEV(i - 1, j - 1) + neq(i - 1, j - 1)))
         # base cases are closed forms (not self-triggering); the recursive case is unfolded at occurrences
         axioms = [
-            z3.ForAll([b], z3.Implies(b >= 0, LEV(0, b) == b * ins), patterns=[LEV(0, b)]),
-            z3.ForAll([a], z3.Implies(a >= 0, LEV(a, 0) == (z3.IntVal(0) if free_start else a * dele)), patterns=[LEV(a, 0)]),
+            (['LEV'], z3.ForAll([b], z3.Implies(b >= 0, LEV(0, b) == b * ins), patterns=[LEV(0, b)])),
+            (['LEV'], z3.ForAll([a], z3.Implies(a >= 0, LEV(a, 0) == (z3.IntVal(0) if free_start else a * dele)), patterns=[LEV(a, 0)])),
         ]
-        return {'LEV': SpecFunc(lambda i, j: LEV(to_int(i), to_int(j)), 'LEV', defn=lev_def)}, axioms
+        names = {'LEV': SpecFunc(lambda i, j: LEV(to_int(i), to_int(j)), 'LEV', defn=lev_def)}
+        if free_start:
+            # BEST(i) = min over i' <= i of LEV(i', m): best match of the whole shorter sequence against a substring
+            # of the longer one that ends at or before position i
+            m = to_int(T.shape[0])
+            BEST = z3.Function('BEST', z3.IntSort(), z3.IntSort())
+
+            def best_def(i):
+                i = to_int(i)
+                return z3.And(z3.Implies(i == 0, BEST(i) == LEV(0, m)),
+                              z3.Implies(i >= 1, BEST(i) == imin(BEST(i - 1), LEV(i, m))))
+            names['BEST'] = SpecFunc(lambda i: BEST(to_int(i)), 'BEST', defn=best_def)
+
+            def PRE(ex, st, i, j):
+                i, j = to_int(i), to_int(j)
+                if ex.pending_defs:
+                    ex.pending_defs[-1].extend([lev_def(i, j), lev_def(i, j - 1)])
+                return imin(LEV(i, j) + dele, LEV(i, j - 1) + neq(i, j - 1))
+            names['PRE'] = PRE
+        return names, axioms
     return theory
 
 
@@ -47,7 +75,7 @@ CONTRACTS = {}
 
 CONTRACTS[(PATH, 'levenshtein_distance')] = Contract(
     params={'source': 'seq:sym', 'target': 'seq:sym', 'sub_cost': 'int', 'ins_cost': 'int', 'del_cost': 'int'},
-    requires=COSTS,
+    requires=COSTS, inline=['_as_symbol_array'],
     theory=lev_theory(), ladder=LADDER,
     ensures=['result == LEV(len(source), len(target))', 'result >= 0'],
     public_ensures=['result >= 0'],
@@ -101,15 +129,16 @@ def align_theory(path_variant=False):
             cons = z3.Concat(z3.Unit(q), s)
             empty = z3.Empty(SEQ_PAIR)
             axioms += [
-                SUF_S(n) == z3.Empty(SEQ_SYM), SUF_T(m) == z3.Empty(SEQ_SYM),
-                projS(empty) == z3.Empty(SEQ_SYM), projT(empty) == z3.Empty(SEQ_SYM), cost(empty) == 0,
-                z3.ForAll([q, s], projS(cons) == z3.If(fst(q) == E, projS(s), z3.Concat(z3.Unit(fst(q)), projS(s))),
-                          patterns=[projS(cons)]),
-                z3.ForAll([q, s], projT(cons) == z3.If(snd(q) == E, projT(s), z3.Concat(z3.Unit(snd(q)), projT(s))),
-                          patterns=[projT(cons)]),
-                z3.ForAll([q, s], cost(cons) == cost(s) + z3.If(fst(q) == E, ins, z3.If(snd(q) == E, dele,
-                                                                z3.If(fst(q) != snd(q), sub, z3.IntVal(0)))),
-                          patterns=[cost(cons)]),
+                (['SUF_S'], SUF_S(n) == z3.Empty(SEQ_SYM)), (['SUF_T'], SUF_T(m) == z3.Empty(SEQ_SYM)),
+                (['projS'], projS(empty) == z3.Empty(SEQ_SYM)), (['projT'], projT(empty) == z3.Empty(SEQ_SYM)),
+                (['cost'], cost(empty) == 0),
+                (['projS'], z3.ForAll([q, s], projS(cons) == z3.If(fst(q) == E, projS(s), z3.Concat(z3.Unit(fst(q)), projS(s))),
+                                      patterns=[projS(cons)])),
+                (['projT'], z3.ForAll([q, s], projT(cons) == z3.If(snd(q) == E, projT(s), z3.Concat(z3.Unit(snd(q)), projT(s))),
+                                      patterns=[projT(cons)])),
+                (['cost'], z3.ForAll([q, s], cost(cons) == cost(s) + z3.If(fst(q) == E, ins, z3.If(snd(q) == E, dele,
+                                                                           z3.If(fst(q) != snd(q), sub, z3.IntVal(0)))),
+                                     patterns=[cost(cons)])),
             ]
             names.update({
                 'SUF_S': SpecFunc(lambda i: SeqVal(SUF_S(to_int(i)), SymCodec), 'SUF_S', defn=lambda i: z3.Implies(
@@ -134,10 +163,10 @@ def align_theory(path_variant=False):
             i_, j_ = n - cntS(s), m - cntT(s)
             step = z3.If(w > 0, dele, z3.If(w < 0, ins, z3.If(S.get(i_ - 1) != T.get(j_ - 1), sub, z3.IntVal(0))))
             axioms += [
-                cntS(empty) == 0, cntT(empty) == 0, wcost(empty) == 0,
-                z3.ForAll([s, w], cntS(snoc) == cntS(s) + z3.If(w >= 0, 1, 0), patterns=[cntS(snoc)]),
-                z3.ForAll([s, w], cntT(snoc) == cntT(s) + z3.If(w <= 0, 1, 0), patterns=[cntT(snoc)]),
-                z3.ForAll([s, w], wcost(snoc) == wcost(s) + step, patterns=[wcost(snoc)]),
+                (['cntS'], cntS(empty) == 0), (['cntT'], cntT(empty) == 0), (['wcost'], wcost(empty) == 0),
+                (['cntS'], z3.ForAll([s, w], cntS(snoc) == cntS(s) + z3.If(w >= 0, 1, 0), patterns=[cntS(snoc)])),
+                (['cntT'], z3.ForAll([s, w], cntT(snoc) == cntT(s) + z3.If(w <= 0, 1, 0), patterns=[cntT(snoc)])),
+                (['wcost'], z3.ForAll([s, w], wcost(snoc) == wcost(s) + step, patterns=[wcost(snoc)])),
             ]
             names.update({'cntS': SpecFunc(lambda a: cntS(a.s)), 'cntT': SpecFunc(lambda a: cntT(a.s)),
                           'wcost': SpecFunc(lambda a: wcost(a.s))})
@@ -165,8 +194,16 @@ def align_theory(path_variant=False):
             return imin(LEV(i, j) + dele, LEV(i, j - 1) + neq(i, j - 1))
 
         def PREBT(ex, st, i, j):
+            """backtrack[i+1, j] after the vectorised step: 0 only if substitution realises PRE, 1 only if deletion
+            does (ties may go either way: the contract does not pin the tie-break)"""
             i, j = to_int(i), to_int(j)
-            return z3.If(LEV(i, j - 1) + neq(i, j - 1) < LEV(i, j) + dele, z3.RealVal(0), z3.RealVal(1))
+            bt = ex.getitem(st.env['backtrack'], (i + 1, j), st, None)
+            if ex.pending_defs:
+                ex.pending_defs[-1].extend([LEVdef(i, j), LEVdef(i, j - 1)])
+            pre = imin(LEV(i, j) + dele, LEV(i, j - 1) + neq(i, j - 1))
+            return z3.And(z3.Or(bt == 0, bt == 1),
+                          z3.Implies(bt == 0, pre == LEV(i, j - 1) + neq(i, j - 1)),
+                          z3.Implies(bt == 1, pre == LEV(i, j) + dele))
         names.update({'CERT': CERT, 'PRE': PRE, 'PREBT': PREBT})
         return names, axioms
     return theory
@@ -191,7 +228,7 @@ ALIGN_LOOPS = {
         'forall(lambda j: implies(0 <= j and j <= c, dist[j] == LEV(r + 1, j)))',
         'forall(lambda j: implies(c < j and j <= ' + _M + ', dist[j] == PRE(r, j)))',
         'forall(lambda j: implies(0 <= j and j <= c, CERT(r + 1, j)))',
-        'forall(lambda j: implies(c < j and j <= ' + _M + ', backtrack[r + 1, j] == PREBT(r, j)))']),
+        'forall(lambda j: implies(c < j and j <= ' + _M + ', PREBT(r, j)))']),
 }
 
 CONTRACTS[(PATH, 'levenshtein_alignment')] = Contract(
@@ -199,7 +236,7 @@ CONTRACTS[(PATH, 'levenshtein_alignment')] = Contract(
             'empty_symbol': 'sym'},
     requires=COSTS + ['forall(lambda k: implies(0 <= k and k < len(source), source[k] != empty_symbol))',
                       'forall(lambda k: implies(0 <= k and k < len(target), target[k] != empty_symbol))'],
-    theory=align_theory(), ladder=LADDER, ghosts={'seqvars': {'alig': PAIR}},
+    theory=align_theory(), ladder=LADDER, inline=['_as_symbol_array'], ghosts={'seqvars': {'alig': PAIR}},
     ensures=['projS(result) == SUF_S(0)', 'projT(result) == SUF_T(0)', 'cost(result) == LEV(len(source), len(target))'],
     loops=_merge(ALIGN_LOOPS, {
         2: LoopSpec(counter='w', inv=[
@@ -213,7 +250,7 @@ CONTRACTS[(PATH, 'levenshtein_alignment_path')] = Contract(
     params={'source': 'seq:sym', 'target': 'seq:sym', 'sub_cost': 'int', 'ins_cost': 'int', 'del_cost': 'int',
             'empty_symbol': 'sym'},
     requires=COSTS,
-    theory=align_theory(path_variant=True), ladder=LADDER, ghosts={'seqvars': {'align': RealCodec}},
+    theory=align_theory(path_variant=True), ladder=LADDER, inline=['_as_symbol_array'], ghosts={'seqvars': {'align': RealCodec}},
     # `list(reversed(align))`: the result is the walk read backwards; the contract is stated on the walk
     ensures=['cntS(align) == len(source)', 'cntT(align) == len(target)',
              'wcost(align) == LEV(len(source), len(target))', 'len(result) == len(align)'],
@@ -223,4 +260,25 @@ CONTRACTS[(PATH, 'levenshtein_alignment_path')] = Contract(
             'cntS(align) == len(source) - src_pos', 'cntT(align) == len(target) - tar_pos',
             'wcost(align) + LEV(src_pos, tar_pos) == LEV(len(source), len(target))'],
             variant='src_pos + tar_pos')}),
+)
+
+
+# ---------------------------------------------------------------------------------------------------
+# substring distance (Sellers): free start in the longer sequence, best end position
+
+_M2 = 'len(target)'
+CONTRACTS[(PATH, 'levenshtein_distance_substring')] = Contract(
+    params={'source': 'seq:sym', 'target': 'seq:sym', 'sub_cost': 'int', 'ins_cost': 'int', 'del_cost': 'int'},
+    requires=COSTS, inline=['_as_symbol_array'],
+    theory=lev_theory(free_start=True, longer_first=True), ladder=LADDER,
+    # after the swap `source` is the longer and `target` the shorter sequence
+    ensures=['result == BEST(len(source))', 'finite(result)', 'len(source) >= len(target)'],
+    loops={
+        0: LoopSpec(counter='i', inv=[
+            'forall(lambda j: implies(0 <= j and j <= ' + _M2 + ', dist[j] == LEV(i, j)))',
+            'dist[' + _M2 + ' + 1] == BEST(i)']),
+        1: LoopSpec(counter='c', modifies={'dist': 'lambda j: j <= ' + _M2}, inv=[
+            'forall(lambda j: implies(0 <= j and j <= c, dist[j] == LEV(i + 1, j)))',
+            'forall(lambda j: implies(c < j and j <= ' + _M2 + ', dist[j] == PRE(i, j)))']),
+    },
 )
